@@ -40,6 +40,8 @@ def pin_repo():
             f = getattr(sys.modules[k], "__file__", "") or ""
             if not os.path.abspath(f).startswith(REPO + os.sep):
                 del sys.modules[k]
+    import warnings
+    warnings.filterwarnings("ignore", category=SyntaxWarning)
     import sievelib  # noqa
 
     f = os.path.abspath(sievelib.__file__)
@@ -379,6 +381,9 @@ def drive(pid, tier, replay=None):
     with ThreadPoolExecutor(NCPU) as ex:
         outs = list(ex.map(lambda s: _run_worker(pid, tier, s, timeout), shards))
 
+    if os.environ.get("VERIF_DEBUG"):
+        for o in sorted(outs, key=lambda o: -o["wall"])[:8]:
+            print("DEBUG shard %.1fs %s" % (o["wall"], json.dumps(o["shard"])[:150]))
     evaluations = 0
     hashes = set()
     overflow = 0
